@@ -9,6 +9,7 @@ from harness.ns import QNAMES
 
 ID = "C13"
 LEAN_MODULES = ["Pypika.Props.C13"]
+TRACE_BUILDER = True   # builder calls made by this check are also run through Pypika.B.step (harness/trace.py)
 THEOREMS = ["Pypika.C13.field_no_alias", "Pypika.C13.arith_no_alias", "Pypika.C13.neg_no_alias", "Pypika.C13.case_no_alias",
             "Pypika.C13.basic_no_alias", "Pypika.C13.complex_no_alias", "Pypika.C13.func_no_alias", "Pypika.C13.fnArg_no_alias",
             "Pypika.C13.field_alias_once", "Pypika.C13.arith_alias_once", "Pypika.C13.neg_alias_once",
